@@ -186,6 +186,30 @@ ExportImport_E(s, e) ==
                             LET o == SortOps(DOMAIN s.lastPow, s.rank)[i] IN [key |-> s.vals[o].key, power |-> s.lastPow[o]]]]
 
 ----------------------------------------------------------------------------
+(* ---- gRPC queries (keeper/querier.go, compatibility_grpc_query.go) and the staking-interface readers          *)
+(* (alias_functions.go, staking.go).  A query never changes state; paginated ones take offset/limit/reverse.   *)
+QRev(q) == [i \in 1..Len(q) |-> q[Len(q) + 1 - i]]
+QPage(q, offset, limit, reverse) ==
+  LET ord == IF reverse THEN QRev(q) ELSE q
+      lim == IF limit = 0 THEN 100 ELSE limit
+      to == IF offset + lim < Len(ord) THEN offset + lim ELSE Len(ord)
+  IN IF offset + 1 > Len(ord) THEN << >> ELSE SubSeq(ord, offset + 1, to)
+QTotal(q, offset) == IF offset > Len(q) THEN 0 ELSE Len(q)
+ValRec(s, o) == [op |-> o, key |-> s.vals[o].key, power |-> s.vals[o].power]
+Query_G(s, e) ==
+  [ valid |-> e.q \in {"Validator"} => ValidAddr(e.op),
+    found |-> CASE e.q = "Validator" -> ValidAddr(e.op) => Has(s.vals, e.op)
+                [] e.q = "ValidatorByConsAddr" -> Has(s.cons, e.key) /\ Has(s.vals, s.cons[e.key])
+                [] e.q = "LastValidators" -> \A o \in DOMAIN s.lastPow : Has(s.vals, o)
+                [] OTHER -> TRUE ]
+Query_R(s, e) ==
+  CASE e.q = "Validators" -> [ops |-> QPage(SortOps(DOMAIN s.vals, s.rank), e.offset, e.limit, e.reverse), total |-> QTotal(SortOps(DOMAIN s.vals, s.rank), e.offset)]
+    [] e.q = "Validator" -> ValRec(s, e.op)
+    [] e.q = "ValidatorByConsAddr" -> ValRec(s, s.cons[e.key])
+    [] e.q = "LastValidators" -> [vals |-> [i \in 1..Cardinality(DOMAIN s.lastPow) |-> LET o == SortOps(DOMAIN s.lastPow, s.rank)[i] IN [op |-> o, power |-> s.lastPow[o]]]]
+    [] e.q = "Params" -> s.params
+    [] e.q = "StakingParams" -> [maxVals |-> s.params.maxVals, histEntries |-> s.params.histEntries]
+
 Guards(s, e) ==
   CASE e.type = "AddValidator"    -> AddValidator_G(s, e)
     [] e.type = "RemoveValidator" -> RemoveValidator_G(s, e)
@@ -195,6 +219,7 @@ Guards(s, e) ==
     [] e.type = "EndBlock"        -> EndBlock_G(s, e)
     [] e.type = "InitGenesis"     -> InitGenesis_G(s, e)
     [] e.type = "ExportImport"    -> ExportImport_G(s, e)
+    [] e.type = "Query"           -> Query_G(s, e)
 Effect(s, e) ==
   CASE e.type = "AddValidator"    -> AddValidator_E(s, e)
     [] e.type = "RemoveValidator" -> RemoveValidator_E(s, e)
@@ -204,11 +229,13 @@ Effect(s, e) ==
     [] e.type = "EndBlock"        -> EndBlock_E(s, e)
     [] e.type = "InitGenesis"     -> InitGenesis_E(s, e)
     [] e.type = "ExportImport"    -> ExportImport_E(s, e)
+    [] e.type = "Query"           -> s
 Resp(s, e) ==
   CASE e.type = "EndBlock" -> EndBlock_R(s, e)
     [] e.type \in {"AddValidator", "RemoveValidator"} -> [op |-> e.op]
     [] e.type = "RegisterPlan" -> [height |-> e.height]
     [] e.type = "ExportImport" -> [same |-> TRUE]
+    [] e.type = "Query" -> Query_R(s, e)
     [] OTHER -> [ok |-> TRUE]
 
 NoResp == [none |-> TRUE]
